@@ -31,7 +31,10 @@ PROBES = [
     ("null_base_slice_first", "ok", "valid"),
     ("null_base_slice", "ok", "valid"),
     ("reextent_same_base", "ok", "valid"),
-    ("reextent_rebased", "ok", "valid"),
+    ("reextent_rebased", "ok", "valid"),          # regression of KF-C20-reextent-rebased-asserts (fixed by /repo 97e4116)
+    ("reextent_disjoint", "ok", "valid"),         # /repo 3905732: no view of a null block when nothing is in common
+    ("reshape_same_count", "ok", "valid"),
+    ("reshape_count_differs", "abort", "mismatched"),
     ("reextent_zero_inner", "ok", "valid"),
     ("elements_zero_inner", "ok", "valid"),
     ("strided_rebased", "ok", "valid"),
@@ -119,6 +122,104 @@ def family_of_text(text, fams):
         return by["iters"]
     return by["views"]
 
+
+
+# --------------------------------------------------------------------------------------------
+# (a') the lifecycle family (harness/h_life.cpp UNCHANGED, vlib/lifecommon.py) in three build configurations
+# --------------------------------------------------------------------------------------------
+class LifeFamily:
+    """Fault-free histories of array.hpp entry points (driver_life gen, kinds c04 and c06) on h_life built for a few
+    lifecycle configurations x {default, -DNDEBUG, -DBOOST_MULTI_ASSERT_DISABLE}."""
+    name = "life"
+
+    def __init__(self):
+        from . import lifecommon as lc
+        self.lc = lc
+        self.lcfgs = [lc.cfg(d=2, t=1), lc.cfg(d=1, t=0), lc.cfg(d=3, t=1)]
+        self.exes = {}            # (life key, build cfg) -> exe
+
+    def jobs(self):
+        return [(self, (self.lc.cfg_key(c), cfg), (c, flags)) for c in self.lcfgs for cfg, flags in CONFIGS]
+
+    @property
+    def harness(self):
+        return "h_life"
+
+    def build_cfg(self, keycfg, cflags):
+        key, cfg = keycfg
+        c, flags = cflags
+        extra = [] if self.lc.assign_fill_compiles()[0] else ["-DLIFE_NO_ASSIGN_FILL"]
+        ok, exe, log = core.build_harness("h_life", ["h_life.cpp"], flags=self.lc.cfg_flags(c) + extra + list(flags),
+                                          tag="_c20%s_%s" % (cfg, key))
+        if ok:
+            self.exes[(key, cfg)] = exe
+        return ok, log
+
+    def generate(self, seed, quick):
+        progs = []
+        for k, c in enumerate(self.lcfgs):
+            n6, n4 = (500, 300) if quick else (8000, 5000)
+            progs.append(self.lc.generate("c06", c, seed + 31 * k, n6, 16 if quick else 40, "l6%d_" % k))
+            progs.append(self.lc.generate("c04", c, seed + 31 * k + 7, n4, 16 if quick else 40, "l4%d_" % k))
+        return "".join(progs)
+
+    def key_of(self, block):
+        for line in block.splitlines():
+            if line.startswith("cfg "):
+                return self.lc.cfg_key(self.lc.parse_cfg_line(line))
+        return None
+
+    def run_cfg(self, cfg, prog_text, shards=None):
+        groups = {}
+        for _cid, block in core.split_cases(prog_text):
+            groups.setdefault(self.key_of(block), []).append(block)
+        outs, crashes = [], []
+        for key, blocks in groups.items():
+            exe = self.exes.get((key, cfg))
+            if exe is None:
+                crashes.append(("<no-executable-%s-%s>" % (key, cfg), -1, "not built"))
+                continue
+            out, cr = core.run_harness(exe, "".join(blocks), shards=shards, timeout=RUN_TIMEOUT["s"])
+            outs.append(out)
+            crashes.extend(cr)
+        return "".join(outs), crashes
+
+    def in_domain(self, block):
+        m = self.lc.model_run(block)
+        return not re.search(r"^(X|V) ", m, re.M) and " skipped" not in m
+
+    def case_fails(self, block):
+        try:
+            if not self.in_domain(block):
+                return None
+        except Exception:
+            return None
+        outs = {}
+        for cfg, _f in CONFIGS:
+            out, crashes = self.run_cfg(cfg, block, shards=1)
+            if crashes:
+                tail = (crashes[0][2].strip().splitlines() or [""])[-1]
+                return ("abort-on-valid-history[%s]" % cfg, "", "signal/exit %s: %s" % (crashes[0][1], tail[:300]))
+            outs[cfg] = out
+        for cfg, _f in CONFIGS[1:]:
+            if outs[cfg] != outs["dbg"]:
+                a, b = first_diff(outs["dbg"], outs[cfg])
+                return ("results-differ[dbg vs %s]" % cfg, a, b)
+        return False
+
+    def shrink(self, block, budget=40):
+        lines = block.splitlines()
+        head = [l for l in lines if not l.startswith("op ") and l.strip() != "end"]
+        ops = [l for l in lines if l.startswith("op ")]
+        tries, k = 0, len(ops) - 1
+        while k >= 0 and tries < budget:
+            cand = ops[:k] + ops[k + 1:]
+            txt = "\n".join(head + cand + ["end"]) + "\n"
+            tries += 1
+            if self.case_fails(txt):
+                ops = cand
+            k -= 1
+        return "\n".join(head + ops + ["end"]) + "\n"
 
 # --------------------------------------------------------------------------------------------
 # (b) death tests
@@ -386,9 +487,12 @@ def vm_crosscheck(prog_text, obs_text, limit=250):
 def structural_ndebug_check():
     """No model file that computes results depends on Model/Asserts.v (C20_ndebug_invariant, structural half)."""
     offenders = []
-    for f in ("Model/Layout.v", "Model/View.v", "Model/Spec.v", "Model/Iter.v", "Model/Assign.v", "Model/Compare.v", "Model/Rebase.v"):
-        if os.path.exists(os.path.join(core.COQ, f)) and "Model/Asserts.v" in core.coq_deps(f):
-            offenders.append(f)
+    for f in ("Model/Layout.v", "Model/View.v", "Model/Spec.v", "Model/Iter.v", "Model/Assign.v", "Model/Compare.v", "Model/Rebase.v",
+              "Model/Life.v"):
+        if os.path.exists(os.path.join(core.COQ, f)):
+            deps = core.coq_deps(f)
+            if "Model/Asserts.v" in deps or "Model/AssertsLife.v" in deps:
+                offenders.append(f)
     return offenders
 
 
@@ -448,31 +552,30 @@ def run(tier, seed, replay=None):
     fams = make_families(has_ge)
     deaths = DeathFamily()
     # ---- all builds in parallel (cached by content hash of include tree + sources + flags) ----
+    life = LifeFamily()
+    ok_l, log_l = life.lc.ensure_driver()
+    if not ok_l:
+        problems.append(("build:model-extraction-or-driver-life", log_l))
     jobs = []
-    seen = set()
     for fam in fams:
         for cfg, flags in CONFIGS:
             jobs.append((fam, cfg, flags))
     jobs.append((deaths, "dbg", ()))
     if tier == "thorough":
         jobs.append((deaths, "asan", ("-fsanitize=address", "-fno-omit-frame-pointer")))
-    results = {}
-
-    def do(job):
-        fam, cfg, flags = job
-        key = (fam.harness, cfg, tuple(getattr(fam, "extra_flags", ())))
-        return job, key
-
+    life.lc.assign_fill_compiles()       # one probe compilation, cached, before the parallel builds
+    jobs += life.jobs()
     # one compile per distinct (source, config, flags); families sharing a source share the binary
     uniq = {}
-    for job in jobs:
-        _j, key = do(job)
-        uniq.setdefault(key, job)
+    for fam, cfg, flags in jobs:
+        key = (fam.harness, str(cfg), tuple(getattr(fam, "extra_flags", ())))
+        uniq.setdefault(key, (fam, cfg, flags))
+    results = {}
     with cf.ThreadPoolExecutor(max_workers=min(core.NCPU, len(uniq))) as ex:
         for key, (ok, log) in zip(uniq.keys(), ex.map(lambda j: j[0].build_cfg(j[1], j[2]), uniq.values())):
             results[key] = (ok, log)
     for fam, cfg, flags in jobs:
-        key = (fam.harness, cfg, tuple(getattr(fam, "extra_flags", ())))
+        key = (fam.harness, str(cfg), tuple(getattr(fam, "extra_flags", ())))
         ok, log = results[key]
         if ok and cfg not in fam.exes:
             fam.build_cfg(cfg, flags)          # cached: just records the path
@@ -511,7 +614,7 @@ def run(tier, seed, replay=None):
             for cid, found_by, want, got in bad[:4]:
                 res.violation(os.path.relpath(os.path.abspath(replay), core.VERIF), "%s: expected %r got %r" % (found_by, want, got))
         else:
-            r = family_of_text(text, fams).case_fails(text)
+            r = life.case_fails(text) if re.search(r"^cfg d=", text, re.M) else family_of_text(text, fams).case_fails(text)
             print("replay verdict:", r if r else ("outside the documented domain" if r is None else "agrees (no violation)"))
             if r:
                 res.violation(os.path.relpath(os.path.abspath(replay), core.VERIF), str(r))
@@ -573,6 +676,37 @@ def run(tier, seed, replay=None):
         items = [(cid,) + v for cid, v in sorted(failing.items(), key=lambda kv: len(dict(blocks).get(kv[0], "")))]
         n_fail += report(res, items, [], prog, fam)
         sample_blocks += [b for _c, b in blocks[:200] if b.count("\n") >= 6][:1]
+    # ---- (a') lifecycle histories in three configurations ----
+    if n_fail < 8:
+        prog_l = life.generate(seed + 977, quick)
+        dist["life"] = {"operations": life.lc.op_histogram(prog_l), "shapes": life.lc.shape_stats(prog_l),
+                        "configurations": [life.lc.cfg_text(c) for c in life.lcfgs]}
+        all_progs.append(prog_l)
+        blocks = core.split_cases(prog_l)
+        evals += 3 * len(blocks)
+        outs, failing = {}, {}
+        with cf.ThreadPoolExecutor(max_workers=3) as ex:
+            futs = {cfg: ex.submit(life.run_cfg, cfg, prog_l, max(4, core.NCPU // 3)) for cfg, _f in CONFIGS}
+            for cfg, fu in futs.items():
+                out, crashes = fu.result()
+                outs[cfg] = core.by_case(out)
+                for cid, rc, err in crashes:
+                    tail = (err.strip().splitlines() or [""])[-1]
+                    failing.setdefault(cid, ("abort-on-valid-history[%s]" % cfg, "no abort (history in the documented domain of Model/Life.v)",
+                                             "signal/exit %s: %s" % (rc, tail[:300])))
+        for cid, _b in blocks:
+            a = outs["dbg"].get(cid)
+            lines_cmp += 3 * len(a or [])
+            for cfg, _f in CONFIGS[1:]:
+                b = outs[cfg].get(cid)
+                if a != b and cid not in failing:
+                    x, y = first_diff("\n".join(a or ["<no output>"]), "\n".join(b or ["<no output>"]))
+                    failing[cid] = ("results-differ[%s vs %s]" % (CFG_TEXT["dbg"], CFG_TEXT[cfg]), x, y)
+        items = [(cid,) + v for cid, v in sorted(failing.items(), key=lambda kv: len(dict(blocks).get(kv[0], "")))]
+        n_fail += report(res, items, [], prog_l, life)
+        sample_blocks += [b for _c, b in blocks[:100] if b.count("\nop ") >= 6][:1]
+    else:
+        skipped.append("life")
     # ---- (b) death tests ----
     n_death = 330 if quick else 5200
     death_cfgs = ["dbg"] + (["asan"] if tier == "thorough" else [])
@@ -627,7 +761,7 @@ def run(tier, seed, replay=None):
                 "syntax (27%), tuple apply (18%); 35% of the death programs are assignments between two views built by view programs "
                 "over separate buffers: equal extents (30%), same leading extent and element count with permuted inner extents (30%, "
                 "rank >= 3), one extent off by one (40%), through 9 overload-selecting statements; each test in a forked child of the "
-                "assertion-enabled build; (c) 16 fixed probes. non-trivial = at least 3 program lines; distinct by hash",
+                "assertion-enabled build; (c) 19 fixed probes. non-trivial = at least 3 program lines; distinct by hash",
         "samples": sample_blocks[:4],
         "generator_distribution": dist,
         "observation_lines_compared": lines_cmp,
